@@ -307,6 +307,73 @@ Proof.
   unfold update_pin_info. destruct (slider_scan _ _ _ _ _) as [pn ch]. repeat split.
 Qed.
 
+(** [from_builder_raw] as a function of the placed board *)
+Definition fbr_of (P:board) (bb:builder) : board :=
+  let b := set_stm P (bstm bb) in
+  let b := match builder_get_en_passant bb with
+           | Some e => set_stm (set_ep (set_stm b (opp (stm b))) e) (opp (stm (set_stm b (opp (stm b)))))
+           | None => b end in
+  let b := add_castle_rights b White (bcrW bb) in
+  let b := add_castle_rights b Black (bcrB bb) in
+  update_pin_info b.
+
+Lemma from_builder_raw_fbr_of bb : from_builder_raw bb = fbr_of (place_all (bpieces bb)) bb.
+Proof. reflexivity. Qed.
+
+Lemma ep_stage_fields (b:board) (eo:option N) :
+  let b' := match eo with
+            | Some e => set_stm (set_ep (set_stm b (opp (stm b))) e) (opp (stm (set_stm b (opp (stm b)))))
+            | None => b end in
+  hash b' = hash b /\ stm b' = stm b /\ crW b' = crW b /\ crB b' = crB b /\
+  (epsq b' = epsq b \/ exists e, eo = Some e /\ epsq b' = Some e).
+Proof.
+  destruct eo as [e|]; cbv zeta.
+  - destruct (set_ep_fields (set_stm b (opp (stm b))) e) as [E1 [E2 [E3 [E4 E5]]]].
+    cbn [set_stm hash stm crW crB epsq] in *.
+    rewrite E1, E3, E4, opp_opp. repeat split; auto.
+    destruct E5 as [E5|E5]; [left; exact E5 | right; exists e; split; [reflexivity|exact E5]].
+  - repeat split; auto.
+Qed.
+
+Lemma add_castle_rights_fields b c a :
+  let b' := add_castle_rights b c a in
+  hash b' = hash b /\ stm b' = stm b /\ epsq b' = epsq b /\
+  crW b' = match c with White => N.land (N.lor (crW b) a) 3 | Black => crW b end /\
+  crB b' = match c with White => crB b | Black => N.land (N.lor (crB b) a) 3 end.
+Proof.
+  cbv zeta. unfold add_castle_rights, cr_add.
+  destruct c; cbn [set_castle_rights castle_rights hash stm crW crB epsq]; repeat split.
+Qed.
+
+Lemma fbr_of_fields P bb :
+  hash (fbr_of P bb) = hash P /\
+  stm (fbr_of P bb) = bstm bb /\
+  crW (fbr_of P bb) = N.land (N.lor (crW P) (bcrW bb)) 3 /\
+  crB (fbr_of P bb) = N.land (N.lor (crB P) (bcrB bb)) 3 /\
+  (epsq (fbr_of P bb) = epsq P \/
+   exists e, builder_get_en_passant bb = Some e /\ epsq (fbr_of P bb) = Some e).
+Proof.
+  unfold fbr_of. cbv zeta.
+  generalize (builder_get_en_passant bb) as eo. intro eo.
+  pose proof (ep_stage_fields (set_stm P (bstm bb)) eo) as H3. cbv zeta in H3.
+  revert H3.
+  generalize (match eo with
+     | Some e => set_stm (set_ep (set_stm (set_stm P (bstm bb)) (opp (stm (set_stm P (bstm bb))))) e)
+                   (opp (stm (set_stm (set_stm P (bstm bb)) (opp (stm (set_stm P (bstm bb)))))))
+     | None => set_stm P (bstm bb) end) as B3.
+  intros B3 [E1 [E2 [E3 [E4 E5]]]].
+  cbn [set_stm hash stm crW crB epsq] in E1, E2, E3, E4, E5.
+  pose proof (add_castle_rights_fields B3 White (bcrW bb)) as H4. cbv zeta in H4. revert H4.
+  generalize (add_castle_rights B3 White (bcrW bb)) as B4.
+  intros B4 [F1 [F2 [F3 [F4 F5]]]].
+  pose proof (add_castle_rights_fields B4 Black (bcrB bb)) as H5. cbv zeta in H5. revert H5.
+  generalize (add_castle_rights B4 Black (bcrB bb)) as B5.
+  intros B5 [G1 [G2 [G3 [G4 G5]]]].
+  destruct (update_pin_info_fields B5) as [U1 [U2 [U3 [U4 U5]]]].
+  rewrite U1, U2, U3, U4, U5, G1, G2, G3, G4, G5, F1, F2, F3, F4, F5, E1, E2, E3, E4.
+  repeat split. exact E5.
+Qed.
+
 Theorem fbr_fields bb :
   hash (from_builder_raw bb) = pieces_hash (bpieces bb) /\
   stm (from_builder_raw bb) = bstm bb /\
@@ -316,27 +383,16 @@ Theorem fbr_fields bb :
    exists f, bep bb = Some f /\
              epsq (from_builder_raw bb) = Some (mk_sq (fourth_rk (opp (bstm bb))) f)).
 Proof.
-  unfold from_builder_raw.
+  rewrite from_builder_raw_fbr_of.
   destruct (place_all_meta (bpieces bb)) as [Hs [HW [HB He]]].
   pose proof (hash_place_all (bpieces bb)) as Hh.
-  set (P := place_all (bpieces bb)) in *.
-  match goal with |- context [update_pin_info ?x] => set (B5 := x) end.
-  destruct (update_pin_info_fields B5) as [U1 [U2 [U3 [U4 U5]]]].
-  rewrite U1, U2, U3, U4, U5. clear U1 U2 U3 U4 U5. subst B5.
-  unfold add_castle_rights, cr_add, builder_get_en_passant.
-  destruct (bep bb) as [f|].
-  - set (e := mk_sq (fourth_rk (opp (bstm bb))) f).
-    set (B1 := set_stm (set_stm P (bstm bb)) (opp (stm (set_stm P (bstm bb))))).
-    destruct (set_ep_fields B1 e) as [E1 [E2 [E3 [E4 E5]]]].
-    cbn [set_castle_rights set_stm castle_rights hash stm crW crB epsq].
-    rewrite E1, E3, E4. subst B1. cbn [set_stm hash stm crW crB epsq] in *.
-    rewrite HW, HB, !N.lor_0_l, opp_opp.
-    repeat split; auto.
-    destruct E5 as [E5|E5].
-    + left. rewrite E5. exact He.
-    + right. exists f. split; [reflexivity|exact E5].
-  - cbn [set_castle_rights set_stm castle_rights hash stm crW crB epsq].
-    rewrite HW, HB, !N.lor_0_l. repeat split; auto.
+  revert Hs HW HB He Hh. generalize (place_all (bpieces bb)) as P. intros P Hs HW HB He Hh.
+  destruct (fbr_of_fields P bb) as [A1 [A2 [A3 [A4 A5]]]].
+  rewrite A1, A2, A3, A4, HW, HB, Hh, !N.lor_0_l. repeat split.
+  destruct A5 as [A5|[e [Hb A5]]].
+  - left. rewrite A5. exact He.
+  - right. unfold builder_get_en_passant in Hb. destruct (bep bb) as [f|]; [|discriminate Hb].
+    exists f. split; [reflexivity|]. rewrite A5. symmetry. exact Hb.
 Qed.
 
 (** the en-passant file recorded in the board (if [set_ep] stored the square) *)
@@ -550,18 +606,22 @@ Proof.
 Qed.
 
 (** the file recorded is the builder's file, when [set_ep] stores the square *)
+Lemma sq_file_mk_sq_land r f : sq_file (mk_sq r f) = N.land f 7.
+Proof.
+  unfold sq_file, mk_sq.
+  apply N.bits_inj; intro k. rewrite !N.land_spec, N.lxor_spec, N.land_spec.
+  destruct (N.ltb_spec k 3) as [Hk|Hk].
+  - rewrite N.shiftl_spec_low by exact Hk. cbn [xorb].
+    destruct (N.testbit f k), (N.testbit 7 k); reflexivity.
+  - assert (E7 : N.testbit 7 k = false).
+    { change 7 with (N.ones 3). apply N.ones_spec_high. exact Hk. }
+    rewrite E7, !andb_false_r. reflexivity.
+Qed.
+
 Lemma sq_file_mk_sq r f : f < 8 -> sq_file (mk_sq r f) = f.
 Proof.
-  intro Hf. unfold sq_file, mk_sq.
-  assert (E : N.land (N.lxor (N.shiftl (N.land r 7) 3) (N.land f 7)) 7 = N.land f 7).
-  { apply N.bits_inj; intro k. rewrite !N.land_spec, N.lxor_spec, N.land_spec.
-    destruct (N.ltb_spec k 3) as [Hk|Hk].
-    - rewrite N.shiftl_spec_low by exact Hk. cbn [xorb].
-      destruct (N.testbit f k), (N.testbit 7 k); reflexivity.
-    - assert (E7 : N.testbit 7 k = false).
-      { change 7 with (N.ones 3). apply N.ones_spec_high. exact Hk. }
-      rewrite E7, !andb_false_r. reflexivity. }
-  rewrite E. change 7 with (N.ones 3). rewrite N.land_ones. apply N.mod_small. exact Hf.
+  intro Hf. rewrite sq_file_mk_sq_land. change 7 with (N.ones 3).
+  rewrite N.land_ones. apply N.mod_small. exact Hf.
 Qed.
 
 Theorem recorded_ep_file_spec bb :
@@ -571,15 +631,7 @@ Proof.
   unfold recorded_ep_file.
   destruct (fbr_fields bb) as [_ [_ [_ [_ [H|[f [Hf H]]]]]]]; rewrite H.
   - left. reflexivity.
-  - right. exists f. split; [exact Hf|]. f_equal.
-    unfold sq_file, mk_sq.
-    apply N.bits_inj; intro k. rewrite !N.land_spec, N.lxor_spec, N.land_spec.
-    destruct (N.ltb_spec k 3) as [Hk|Hk].
-    + rewrite N.shiftl_spec_low by exact Hk. cbn [xorb].
-      destruct (N.testbit f k), (N.testbit 7 k); reflexivity.
-    + assert (E7 : N.testbit 7 k = false).
-      { change 7 with (N.ones 3). apply N.ones_spec_high. exact Hk. }
-      rewrite E7, !andb_false_r. reflexivity.
+  - right. exists f. split; [exact Hf|]. f_equal. apply sq_file_mk_sq_land.
 Qed.
 
 (** ** Part 4: the hypotheses are satisfiable — concrete boards *)
@@ -612,8 +664,8 @@ Proof.
   apply (sep_castle start_board White 3 1); [reflexivity|reflexivity|vm_compute; reflexivity|discriminate].
 Qed.
 
-(** after 1.e4 d5?? 2.e5 f5 style: black to move, white pawn just arrived on e4 next to a
-    black pawn on d4, so [set_ep] records the square e4 (28) *)
+(** Black to move, a white pawn has just arrived on e4 (square 28) next to a black pawn on d4
+    (square 27), so [set_ep] records the square e4 *)
 Definition ep_builder : builder :=
   {| bpieces := back White ++ [Some (Pawn,White);Some (Pawn,White);Some (Pawn,White);Some (Pawn,White);
                                None;Some (Pawn,White);Some (Pawn,White);Some (Pawn,White)]
